@@ -154,19 +154,22 @@ where
 /// Members of one type may share a name (elements of two namespaces with the same local name, an attribute and an
 /// element): the second and later ones get a numbered field name, their XML names stay as they are.
 fn with_unique_rust_names(fields: &[Field]) -> Vec<Field> {
+    // names are compared and numbered without the `r#` of a keyword: `r#type_2` is the identifier `type_2`
+    let bare = |name: &str| name.strip_prefix("r#").unwrap_or(name).to_string();
     let mut taken: HashSet<String> = HashSet::new();
     // the number that was appended last to a name (thousands of members may share one)
-    let mut last_number: HashMap<&str, usize> = HashMap::new();
+    let mut last_number: HashMap<String, usize> = HashMap::new();
     fields
         .iter()
         .map(|original| {
             let mut field = original.clone();
-            let n = last_number.entry(original.rust_name.as_str()).or_insert(1);
-            while taken.contains(&field.rust_name) {
+            let name = bare(&original.rust_name);
+            let n = last_number.entry(name.clone()).or_insert(1);
+            while taken.contains(&bare(&field.rust_name)) {
                 *n += 1;
-                field.rust_name = format!("{}_{n}", original.rust_name);
+                field.rust_name = format!("{name}_{n}");
             }
-            taken.insert(field.rust_name.clone());
+            taken.insert(bare(&field.rust_name));
             field
         })
         .collect()
